@@ -1,5 +1,7 @@
 import CMacVerif.Model.HydroGraph
 import Mathlib.Tactic.SplitIfs
+import Mathlib.Data.List.Nodup
+import Mathlib.Data.List.Range
 /-! Lemmas about the hydro task graph of an arbitrary layout (C07). -/
 namespace CMacVerif.HydroGraph
 
@@ -89,5 +91,121 @@ theorem ngbDown_ngbUp {L : Layout} {ax : Axis} {g n : Sub} (hg : valid L g = tru
 theorem ngb_mutual {L : Layout} {ax : Axis} {g n : Sub} (hg : valid L g = true) (hn : valid L n = true) :
     ngbUp L ax g = some n ↔ ngbDown L ax n = some g :=
   ⟨fun h => (ngbUp_ngbDown hg h).2, fun h => (ngbDown_ngbUp hn h).2⟩
+
+theorem count_optTask (o : Option Sub) (s : Slot) (c : Task) :
+    (optTask o s).count c = if o = some c.g ∧ s = c.slot then 1 else 0 := by
+  obtain ⟨g', sc⟩ := c
+  cases o with
+  | none => simp [optTask]
+  | some n =>
+    simp only [optTask, List.count_cons, List.count_nil, beq_iff_eq, Task.mk.injEq, Option.some.injEq]
+    simp
+
+theorem gradDownTask_eq (L : Layout) (ax : Axis) (g' : Sub) (t : Task) :
+    gradDownTask L ax g' = t ↔
+      (ngbDown L ax g' = none ∧ t = ⟨g', .gradDown ax⟩) ∨ (∃ m, ngbDown L ax g' = some m ∧ t = ⟨m, .gradUp ax⟩) := by
+  unfold gradDownTask
+  cases h : ngbDown L ax g' with
+  | none => simp [eq_comm]
+  | some m => simp [eq_comm]
+
+theorem fluxDownTask_eq (L : Layout) (ax : Axis) (g' : Sub) (t : Task) :
+    fluxDownTask L ax g' = t ↔
+      (ngbDown L ax g' = none ∧ t = ⟨g', .fluxDown ax⟩) ∨ (∃ m, ngbDown L ax g' = some m ∧ t = ⟨m, .fluxUp ax⟩) := by
+  unfold fluxDownTask
+  cases h : ngbDown L ax g' with
+  | none => simp [eq_comm]
+  | some m => simp [eq_comm]
+
+set_option maxHeartbeats 800000 in
+theorem consistent (L : Layout) (p c : Task) (hp : exists_ L p = true) (hc : exists_ L c = true) :
+    (children L p).count c = (parents L c).count p := by
+  obtain ⟨g, sp⟩ := p
+  obtain ⟨g', sc⟩ := c
+  simp only [exists_, Bool.and_eq_true] at hp hc
+  obtain ⟨hg, hpe⟩ := hp
+  obtain ⟨hg', hce⟩ := hc
+  have hm := fun a => @ngb_mutual L a g g' hg hg'
+  have hm' := fun a => @ngb_mutual L a g' g hg' hg
+  rcases sp with _ | ax | ax | _ | _ | _ | ax | ax | _ | _ <;>
+  rcases sc with _ | ax' | ax' | _ | _ | _ | ax' | ax' | _ | _ <;>
+    simp only [children, parents, List.count_cons, List.count_nil, beq_iff_eq, count_optTask,
+      gradDownTask_eq, fluxDownTask_eq,
+      Task.mk.injEq, reduceCtorEq, and_false, and_true, false_and, if_false, Nat.add_zero, Nat.zero_add,
+      or_false, false_or, exists_false, Slot.gradUp.injEq, Slot.gradDown.injEq, Slot.fluxUp.injEq, Slot.fluxDown.injEq] <;>
+    first
+      | rfl
+      | skip
+  all_goals (try cases ax)
+  all_goals (try cases ax')
+  all_goals (simp only [slotExists, Option.isNone_iff_eq_none] at hpe hce)
+  all_goals (first
+    | (simp [hm, hm', hpe, hce, eq_comm]; done)
+    | (simp only [hm, hm', hpe, hce, eq_comm, reduceCtorEq, and_false, and_true, exists_false, if_false,
+        Nat.add_zero, Nat.zero_add, exists_eq_right, exists_eq_left, true_and]; done)
+    | (by_cases hgg : g = g'
+       · subst hgg; simp [hpe, hce]
+       · have hgg' : ¬ g' = g := fun e => hgg e.symm
+         simp [hgg, hgg']))
+
+end CMacVerif.HydroGraph
+
+
+namespace CMacVerif.HydroGraph
+
+theorem mem_allSubs (L : Layout) (g : Sub) : g ∈ allSubs L ↔ valid L g = true := by
+  obtain ⟨a, b, c⟩ := g
+  simp only [allSubs, List.mem_flatMap, List.mem_range, List.mem_map, Prod.mk.injEq, valid_iff]
+  constructor
+  · rintro ⟨a', ha, b', hb, c', hc, rfl, rfl, rfl⟩; exact ⟨ha, hb, hc⟩
+  · rintro ⟨ha, hb, hc⟩; exact ⟨a, ha, b, hb, c, hc, rfl, rfl, rfl⟩
+
+theorem allSubs_nodup (L : Layout) : (allSubs L).Nodup := by
+  unfold allSubs
+  rw [List.nodup_flatMap]
+  refine ⟨?_, ?_⟩
+  · intro a _
+    rw [List.nodup_flatMap]
+    refine ⟨?_, ?_⟩
+    · intro b _
+      exact (List.nodup_range).map (fun c c' h => by simpa using h)
+    · apply List.Nodup.pairwise_of_forall_ne List.nodup_range
+      intro b _ b' _ hne
+      simp only [Function.onFun, List.disjoint_left, List.mem_map, List.mem_range]
+      rintro g ⟨c, _, rfl⟩ ⟨c', _, h⟩
+      simp only [Prod.mk.injEq] at h
+      exact hne h.2.1.symm
+  · apply List.Nodup.pairwise_of_forall_ne List.nodup_range
+    intro a _ a' _ hne
+    simp only [Function.onFun, List.disjoint_left, List.mem_flatMap, List.mem_map, List.mem_range]
+    rintro g ⟨b, _, c, _, rfl⟩ ⟨b', _, c', _, h⟩
+    simp only [Prod.mk.injEq] at h
+    exact hne h.1.symm
+
+theorem allSlots_nodup : allSlots.Nodup := by decide
+
+theorem mem_allSlots (s : Slot) : s ∈ allSlots := by
+  rcases s with _ | ax | ax | _ | _ | _ | ax | ax | _ | _ <;> (try cases ax) <;> decide
+
+theorem mem_allTasks (L : Layout) (t : Task) : t ∈ allTasks L ↔ exists_ L t = true := by
+  obtain ⟨g, s⟩ := t
+  simp only [allTasks, List.mem_flatMap, List.mem_map, List.mem_filter, Task.mk.injEq, exists_,
+    Bool.and_eq_true, mem_allSubs]
+  constructor
+  · rintro ⟨g', hg', s', ⟨_, hs'⟩, rfl, rfl⟩; exact ⟨hg', hs'⟩
+  · rintro ⟨hg, hs⟩; exact ⟨g, hg, s, ⟨mem_allSlots s, hs⟩, rfl, rfl⟩
+
+theorem allTasks_nodup (L : Layout) : (allTasks L).Nodup := by
+  unfold allTasks
+  rw [List.nodup_flatMap]
+  refine ⟨?_, ?_⟩
+  · intro g _
+    exact (allSlots_nodup.filter _).map (fun s s' h => by simpa using h)
+  · apply List.Nodup.pairwise_of_forall_ne (allSubs_nodup L)
+    intro g _ g' _ hne
+    simp only [Function.onFun, List.disjoint_left, List.mem_map, List.mem_filter]
+    rintro t ⟨s, _, rfl⟩ ⟨s', _, h⟩
+    simp only [Task.mk.injEq] at h
+    exact hne h.1.symm
 
 end CMacVerif.HydroGraph
